@@ -3,6 +3,7 @@ import Gv.Model.Facts
 import Gv.Proofs.PoolCore
 import Gv.Proofs.PhaseAlignNT
 import Gv.Proofs.PhaseAlignMulti
+import Gv.Proofs.PhaseAlignAA
 /-!
 # C16 — phasing
 
@@ -24,6 +25,11 @@ import Gv.Proofs.PhaseAlignMulti
   `phase_nt_without_positive_alignment_is_removed`, `phase_nt_hit_shorter_than_frame_shift_reports_error`;
   `atg_aligner_never_panics`;
   several references and either strand: `phase_nt_verbatim_multi_partial` (`Gv.Proofs.PhaseAlignMulti`).
+
+* the translate mode, `alignAgainstRefsAA` (`Gv.Model.PhaseAlign.phaseAA`: selection over references × 3 or 6 frames,
+  amino-acid positions converted to nucleotide positions, result assembly): `phase_aa_removed_is_untrimmed_input`,
+  `phase_aa_never_panics`, `phase_aa_nt_is_substring_at_position`, `phase_aa_codon_translates_to_aa`,
+  `phase_aa_ok_is_assembleAA` (helper development `Gv.Proofs.PhaseAlignAA`).
 
 Partial: the clause "a sequence containing the reference ORF verbatim once is trimmed at its start" is proved
 for the nucleotide mode (`phasent`), gap penalties
@@ -720,6 +726,121 @@ theorem atg_aligner_never_panics (a : Aligner) (s1 s2 : Seq) : alignATG a true s
   alignATG_never_panics a s1 s2
 
 end verbatim
+
+/-! ## the translate mode: `alignAgainstRefsAA` (selection loop + assembly)
+
+`phaseAA c code orfsaa seq` is the complete model of `alignAgainstRefsAA` (`Gv.Model.PhaseAlign`): for every
+reference protein and every reading frame (forward 0, 1, 2, then with `reverse` the three frames of the
+reverse-complemented copy) the frame is translated, the reference is aligned against the translation with the
+`ALIGN_ALGO_ATG` aligner, the first strictly best score wins, and the hit's amino-acid positions are converted to
+nucleotide positions.  The theorems below hold for ALL settings, references and sequences. -/
+
+section translate
+open Gv.Model.PhaseAlign Gv.Proofs.PhaseAlignAA
+
+/-- **the only removed result of the translate mode is the untrimmed input** (position 0, nucleotides = codons = the
+input, no amino acids): `phaseAA` yields `removed` only through `noHitPhasedSequence`, i.e. when no frame of no strand
+aligns to any reference with a positive score -/
+theorem phase_aa_removed_is_untrimmed_input (c : NTCfg) (code : List (List Byte × Byte)) (orfsaa : List Seq)
+    (seq : Seq) (p : Phased) (h : phaseAA c code orfsaa seq = NTOut.removed p) :
+    p = ⟨0, seq, seq, some []⟩ :=
+  (phaseAA_removed c code orfsaa seq p h).1
+
+/-- **`alignAgainstRefsAA` on top of the repaired aligner never panics**: the aligner does not index out of range
+(`atg_aligner_never_panics`) and each of the four slice expressions `[beststart:bestend]` (twice), `[beststartaa:bestendaa]`
+is in range, because the aligner's positions lie inside the translated frame (`alignATG_ok_bounds`) and a frame of
+`n` nucleotides translates to `n / 3` residues — for all settings, references and sequences -/
+theorem phase_aa_never_panics (c : NTCfg) (hfix : c.fixed = true) (code : List (List Byte × Byte))
+    (orfsaa : List Seq) (seq : Seq) : phaseAA c code orfsaa seq ≠ NTOut.panic :=
+  phaseAA_no_panic c code orfsaa seq hfix
+
+/-- the same for `Phase()` on nucleotide references (translated in frame 0 first) -/
+theorem phase_aa_of_refs_never_panics (c : NTCfg) (hfix : c.fixed = true) (code : List (List Byte × Byte))
+    (alphabet : Nat) (refs : List Seq) (seq : Seq) : phaseAAOfRefs c code alphabet refs seq ≠ some NTOut.panic := by
+  unfold phaseAAOfRefs
+  cases phaseRefsAA code alphabet refs with
+  | none => simp
+  | some orfsaa =>
+    simp only [Option.map_some, ne_eq, Option.some.injEq]
+    exact phaseAA_no_panic c code orfsaa seq hfix
+
+/-- **every kept result of the translate mode: the trimmed nucleotides are the substring of the chosen strand that
+starts at the reported position** — the strand is the input, or (only when both strands are searched) its
+reverse-complemented copy; the position is `frame + 3·seqstart` with `frame < 3`; the substring ends inside the strand,
+and at its very end unless the end is cut -/
+theorem phase_aa_nt_is_substring_at_position (c : NTCfg) (code : List (List Byte × Byte)) (orfsaa : List Seq)
+    (seq : Seq) (p : Phased) (h : Hit) (hp : phaseAA c code orfsaa seq = NTOut.ok p h) :
+    slice (strandOf seq h) p.position (p.position + p.nt.length) = p.nt ∧
+    (h.rev = false → strandOf seq h = seq) ∧
+    (h.rev = true → strandOf seq h = revcompIgnoringError seq ∧ c.reverse = true) ∧
+    h.frame < 3 ∧ p.position = h.frame + 3 * h.seqstart ∧
+    p.position + p.nt.length ≤ (strandOf seq h).length ∧
+    (c.cutend = false → p.position + p.nt.length = (strandOf seq h).length) := by
+  obtain ⟨f1, f2, f3, _, f5, f6, _, f8, _⟩ := phaseAA_ok_facts c code orfsaa seq p h hp
+  refine ⟨?_, fun hr => by simp [strandOf, hr], fun hr => ⟨by simp [strandOf, hr], f2 hr⟩, f1, f3, f5, f6⟩
+  rcases f8 with rfl | ⟨_, hnt, _⟩
+  · exact (phase_nt_is_substring_at_position code seq h c.cutend).1
+  · rw [hnt]
+    simp [slice]
+
+/-- **every kept result of the translate mode: the codon sequence is the trimmed nucleotide sequence, and the reported
+amino acids are exactly its frame-0 translation** — one residue per complete codon: the 1 or 2 nucleotides that may
+follow the last complete codon (possible only without cut-end) stay in the nucleotide / codon sequences and have no
+amino acid; with cut-end the trimmed sequence is a whole number of codons -/
+theorem phase_aa_codon_translates_to_aa (c : NTCfg) (code : List (List Byte × Byte)) (orfsaa : List Seq)
+    (seq : Seq) (p : Phased) (h : Hit) (hp : phaseAA c code orfsaa seq = NTOut.ok p h) :
+    p.codon = p.nt ∧ p.aa = some (codonsFrom code p.codon) ∧ (c.cutend = true → p.nt.length % 3 = 0) := by
+  obtain ⟨_, _, _, f4, _, _, f7, f8, _⟩ := phaseAA_ok_facts c code orfsaa seq p h hp
+  refine ⟨f4, ?_, f7⟩
+  rcases f8 with rfl | ⟨_, hnt, haa⟩
+  · exact (phase_codon_translates_to_aa code (strandOf seq h) h c.cutend).1
+  · rw [f4, hnt, haa]
+    simp [codonsFrom]
+
+/-- **with the repaired aligner every kept result IS `assembleAA` of a valid hit** (`ValidHitAA`: frame `0..2`,
+`seqstart ≤ seqend < |translated frame|`), so `phase_cutend_bounds`, `phase_codon_translates_to_aa` and
+`phase_nt_is_substring_at_position` apply to it as they stand: the repaired trace-back always aligns at least one
+residue of the translation (it can leave the matrix through row 0 only by a diagonal step) -/
+theorem phase_aa_ok_is_assembleAA (c : NTCfg) (hfix : c.fixed = true) (code : List (List Byte × Byte))
+    (orfsaa : List Seq) (seq : Seq) (p : Phased) (h : Hit) (hp : phaseAA c code orfsaa seq = NTOut.ok p h) :
+    p = assembleAA code (strandOf seq h) h c.cutend ∧ ValidHitAA code (strandOf seq h) h := by
+  obtain ⟨f1, _, _, _, _, _, _, _, f9⟩ := phaseAA_ok_facts c code orfsaa seq p h hp
+  obtain ⟨k1, k2, k3⟩ := f9 hfix
+  exact ⟨k1, f1, k2, k3⟩
+
+/-- `ATGAAACCCTAA` (translated by `Phase()` to `MKP*`) -/
+private def aaRef : Seq := [65, 84, 71, 65, 65, 65, 67, 67, 67, 84, 65, 65]
+
+set_option maxRecDepth 100000 in
+/-- a hit in FRAME 1 of the forward strand: `C ATGAAACCCTAA CC`, default settings (BLOSUM62 chosen by `NewPwAligner`),
+without and with cut-end -/
+example :
+    phaseAAOfRefs {} Gen.standardcode NUCLEOTIDS [aaRef] ([67] ++ aaRef ++ [67, 67]) =
+      some (NTOut.ok ⟨1, aaRef ++ [67, 67], aaRef ++ [67, 67], some [77, 75, 80, 42]⟩ ⟨false, 1, 0, 3⟩) ∧
+    phaseAAOfRefs { cutend := true } Gen.standardcode NUCLEOTIDS [aaRef] ([67] ++ aaRef ++ [67, 67]) =
+      some (NTOut.ok ⟨1, aaRef, aaRef, some [77, 75, 80, 42]⟩ ⟨false, 1, 0, 3⟩) := by
+  decide
+
+set_option maxRecDepth 100000 in
+/-- a hit on the REVERSE strand, frame 2: `GTTAGGGTTTCATGG` is the reverse complement of `CC ATGAAACCCTAA C` -/
+example :
+    phaseAAOfRefs { reverse := true } Gen.standardcode NUCLEOTIDS [aaRef]
+        [71, 84, 84, 65, 71, 71, 71, 84, 84, 84, 67, 65, 84, 71, 71] =
+      some (NTOut.ok ⟨2, aaRef ++ [67], aaRef ++ [67], some [77, 75, 80, 42]⟩ ⟨true, 2, 0, 3⟩) := by
+  decide
+
+set_option maxRecDepth 100000 in
+/-- no frame scores above 0 (`MKP*` against the translations of `CCCCCC`… there `P` would match: take `GGGGGG`):
+removed, untrimmed; a sequence of 4 nucleotides cannot be translated in frame 2: an error, after frames 0 and 1 were
+aligned -/
+example :
+    phaseAAOfRefs {} Gen.standardcode NUCLEOTIDS [aaRef] [71, 71, 71, 71, 71, 71] =
+      some (NTOut.removed ⟨0, [71, 71, 71, 71, 71, 71], [71, 71, 71, 71, 71, 71], some []⟩) ∧
+    phaseAAOfRefs {} Gen.standardcode NUCLEOTIDS [aaRef] [65, 84, 71, 65] = some NTOut.err ∧
+    phaseAAOfRefs {} Gen.standardcode NUCLEOTIDS [[65, 84]] [65, 84, 71, 65, 65, 65] = none := by
+  decide
+
+end translate
 
 /-! ## non-vacuity -/
 
